@@ -233,9 +233,10 @@ class HistogramDensityMethod(BatchDetector):
             y_pred (numpy.array): predicted labels for dataset - not used by HDM
         """
         X, _, _ = super()._validate_input(X, None, None)
-        X = pd.DataFrame(
-            X, columns=self._input_cols
-        )  # TODO: subsequent operations expect dataframes, not numpy arrays
+        # TODO: subsequent operations expect dataframes, not numpy arrays.
+        # Columns stay positional: names are checked by validation, and naming
+        # only some of the frames would misalign them when they are concatenated.
+        X = pd.DataFrame(X)
         # Initialize attributes
         self.reference = copy.deepcopy(X)
         # statistics restart here, as they do after a drift
@@ -259,9 +260,10 @@ class HistogramDensityMethod(BatchDetector):
             self.reset()
 
         X, _, _ = super()._validate_input(X, None, None)
-        X = pd.DataFrame(
-            X, columns=self._input_cols
-        )  # TODO: subsequent operations expect dataframes, not numpy arrays
+        # TODO: subsequent operations expect dataframes, not numpy arrays.
+        # Columns stay positional: names are checked by validation, and naming
+        # only some of the frames would misalign them when they are concatenated.
+        X = pd.DataFrame(X)
 
         super().update(X, None, None)
         test_n = X.shape[0]
@@ -368,7 +370,8 @@ class HistogramDensityMethod(BatchDetector):
         self.total_epsilon = 0
 
         if self.detect_batch == 1:
-            self.update(test_proxy)
+            # (as an array: an internal frame must not fix column names)
+            self.update(test_proxy.to_numpy())
 
     def _build_histograms(self, dataset, min_values, max_values):
         """
